@@ -202,9 +202,10 @@ def run(ck):
         ck.ob("SIB", D + "prove/verify", "transcript-reference", sv == [("append_message", "dlog_ed25519"), ("append_message", "randomised_point"), ("split", None)],
               "sequence equals the reference (protocol constant)", v.loc())
 
-    narrowing_len_sweep(ck, crate("rs", "concordium_base"), re.compile(r"concordium_base::(ps_sig|aggregate_sig|ecvrf)"), re.compile(r"(verify|check)[a-z_0-9]*(::\\{closure#\\d+\\})*$"))
+    narrowing_len_sweep(ck, crate("rs", "concordium_base"), re.compile(r"concordium_base::(ps_sig|aggregate_sig|ecvrf)"), re.compile(r"(verify|check)[a-z_0-9]*(::\{closure#\d+\})*$"))
 
-    eq_polarity_sweep(ck, crate("rs", "concordium_base"), re.compile(r"concordium_base::(ps_sig|aggregate_sig|ecvrf)"), re.compile(r"(verify|check)[a-z_0-9]*(::\\{closure#\\d+\\})*$"))
+    eq_polarity_sweep(ck, crate("rs", "concordium_base"), re.compile(r"concordium_base::(ps_sig|aggregate_sig|ecvrf)"), re.compile(r"(verify|check)[a-z_0-9]*(::\{closure#\d+\})*$"))
+    rejecting_checks_floor(ck, crate("rs", "concordium_base"), re.compile(r"concordium_base::(ps_sig|aggregate_sig|ecvrf)"), re.compile(r"(verify|verifier|validate|check|extract_commit_message)[a-z_0-9]*(::\{closure#\d+\})*$"), "C19")
 
 
 def hash_points_inputs(f, site):
